@@ -6,7 +6,7 @@ The repository must be clean before and is clean after."""
 import json, os, subprocess, sys, time, re
 ROOT = os.path.join(os.path.dirname(os.path.abspath(__file__)), "..")
 SEED = os.path.join(ROOT, "seeded")
-REPO = "/repo"
+REPO = os.environ.get("VERIF_REPO", "/repo")
 
 def sh(cmd, **kw):
     return subprocess.run(cmd, shell=True, text=True, stdout=subprocess.PIPE, stderr=subprocess.STDOUT, **kw)
